@@ -1,5 +1,5 @@
 #!/bin/bash
-# usage: seedmatrix.sh <tier> <slot> <seed:check> ...   -> appends to /tmp/st/matrix.txt
+# usage: seedmatrix.sh <tier> <slot> <seed:check> ...   -> appends to ${MATRIX_OUT:-/tmp/st/matrix.txt}
 TIER=$1; SLOT=$2; shift 2
 for x in "$@"; do
   s=${x%%:*}; c=${x##*:}
@@ -7,5 +7,5 @@ for x in "$@"; do
   rc=$?
   props=$(grep '^VIOLATION' /tmp/st/mx_${s}_${c}_$TIER.txt | sed 's/.*property=\(C[0-9]*\).*/\1/' | sort | uniq -c | awk '{printf "%s×%s ", $2, $1}')
   he=$(grep -c '^HARNESS-ERROR' /tmp/st/mx_${s}_${c}_$TIER.txt)
-  echo "$s $c $TIER rc=$rc viol=[$props] harness_errors=$he" >> /tmp/st/matrix.txt
+  echo "$s $c $TIER rc=$rc viol=[$props] harness_errors=$he" >> ${MATRIX_OUT:-/tmp/st/matrix.txt}
 done
